@@ -89,6 +89,23 @@ CHECKS.update({
                 ref="5/C17", note=E23_NOTE),
 })
 
+CHECKS.update({
+    "C13": dict(engine="E3", technique="exhaustive enumeration of small scheduler inputs "
+                "(task sets x priority ranks x strategy lists x occupied pools) through "
+                "the real schedule(), independent residual-fit oracle",
+                text="For every enumerated input and each of EDF/FIFO/LSF: an unplaced "
+                     "task must not fit any pool once the placed tasks of higher or "
+                     "equal priority are accounted.", ref="5/C13", note=E23_NOTE),
+    "C18": dict(engine="E2+E1", technique="explicit-state BFS over reachable task-state "
+                "combinations with 96 frontier queries per state; plus run-level "
+                "exploration (E1) with offer rules on every scheduler invocation",
+                text="Frontier rules (no starvation, nothing finished, scheduled/running "
+                     "only with retract/preempt, monotone in lookahead and "
+                     "release_taskgraphs under identical random answers, no premature "
+                     "offer to non-planning policies, release-on-completion).",
+                ref="5/C18", note=E23_NOTE + " " + E1_NOTE),
+})
+
 NOT_YET = {}
 
 
@@ -148,13 +165,13 @@ def main():
 
 
 ENGINES = [
-    {"name": "E2", "path": "vf/checks/c04.py", "serves_properties": ["C04", "C16"],
+    {"name": "E2", "path": "vf/checks/c04.py", "serves_properties": ["C04", "C16", "C18"],
      "kind_free_text": "explicit-state BFS over operation histories on real objects "
                        "(state = history, rebuilt on fresh objects), reference model"},
-    {"name": "E3", "path": "vf/checks/c17.py", "serves_properties": ["C16", "C17"],
+    {"name": "E3", "path": "vf/checks/c17.py", "serves_properties": ["C13", "C16", "C17"],
      "kind_free_text": "exhaustive input enumeration of pure functions vs brute force"},
     {"name": "E1", "path": "vf/e1.py", "serves_properties":
-        ["C01", "C02", "C03", "C05", "C06", "C07"],
+        ["C01", "C02", "C03", "C05", "C06", "C07", "C18"],
      "kind_free_text": "closed-world run explorer: real main.main() in-process, answer "
                        "tape for randomness, shadow monitors on every event"},
 ]
